@@ -369,9 +369,9 @@ def gen_all(ctx):
         scs += mat
     # adaptive=True with 1-2 usable tapers; the BW keyword with NFFT in {None, N, > N}
     for _ in range(ctx.scale(4, 20)):
-        scs.append(S.force_few_tapers(rng, S.gen_scenario(rng, "multi_taper_psd", nmax=24 if q else 64, max_ch=2 if q else 4)))
+        scs.append(S.runnable(lambda: S.force_few_tapers(rng, S.gen_scenario(rng, "multi_taper_psd", nmax=24 if q else 64, max_ch=2 if q else 4))))
     for _ in range(ctx.scale(3, 20)):
-        scs.append(S.force_bw_nfft(rng, S.gen_scenario(rng, "multi_taper_psd", nmax=20 if q else 48, max_ch=2 if q else 4), idx=_))
+        scs.append(S.runnable(lambda: S.force_bw_nfft(rng, S.gen_scenario(rng, "multi_taper_psd", nmax=20 if q else 48, max_ch=2 if q else 4), idx=_)))
     # Fortran-ordered / strided / transposed-view inputs with two or more leading dimensions
     plan = [("multi_taper_psd", "F", [2, 3]), ("multi_taper_psd", "transposed", [3, 2]), ("periodogram", "F", [2, 2]),
             ("multi_taper_csd", "F", [2, 2]), ("periodogram_csd", "F", [2, 3]), ("multi_taper_psd", "strided0", [2, 2]),
@@ -380,13 +380,13 @@ def gen_all(ctx):
         est, lay, lead = plan[i % len(plan)]
         if not q and i >= len(plan):
             lead = rng.choice([[2, 3], [3, 2], [2, 2], [2, 1, 3]])
-        scs.append(S.gen_scenario(rng, est, nmax=(10 if est == "multi_taper_csd" else 14) if q else 40, lead=lead, layout=lay))
+        scs.append(S.runnable(lambda: S.gen_scenario(rng, est, nmax=(12 if est == "multi_taper_csd" else 14) if q else 40, lead=lead, layout=lay)))
     # option-sibling sequences (one option changed between two calls on the same signal, then the first again)
     for _ in range(ctx.scale(3, 15)):
-        scs += S.gen_siblings(rng, "multi_taper_psd", nmax=20 if q else 48, max_ch=2 if q else 4, opt="low_bias")
+        scs += S.runnable(lambda: S.gen_siblings(rng, "multi_taper_psd", nmax=20 if q else 48, max_ch=2 if q else 4, opt="low_bias"))
     for _ in range(ctx.scale(5, 30)):
-        scs += S.gen_siblings(rng, rng.choice(["multi_taper_psd", "multi_taper_psd", "periodogram", "periodogram_csd"]),
-                              nmax=20 if q else 48, max_ch=2 if q else 4)
+        scs += S.runnable(lambda: S.gen_siblings(rng, rng.choice(["multi_taper_psd", "multi_taper_psd", "periodogram", "periodogram_csd"]),
+                              nmax=20 if q else 48, max_ch=2 if q else 4))
     for _ in range(ctx.scale(8, 40)):
         sc = S.gen_welch(rng)
         if len(sc["shape"]) > 1:
